@@ -66,7 +66,10 @@ package keystore
 //@   safety nonil
 //@   requires len(chain) > 0
 
-// C16: looking up a key only reads the key store
+// C16: looking up a key only reads the key store; the entry it answers with carries the requested
+// key id, and a failed lookup answers with no entry (checked against every implementation)
 //@ iface (KeyStore).GetKey
 //@   props C16
 //@   pure
+//@   ensures ret1 != nil ==> ret0 == nil
+//@   ensures ret1 == nil ==> ret0.KeyID == id
